@@ -235,7 +235,26 @@ def verify(case, w, loader, rows, what, order="exact", full=True):
         case.check(ok, f"{what}: apply() row r is not f(sub-volume of molecule r)",
                    "batch.task-order-vs-molecule-order" if w.batch else None,
                    got=df["m"].to_list()[:10], want=[r["code"] for r in rows][:10])
+        # per-molecule keyword arguments travel with their molecule: task r gets sub-volume r and row r of every
+        # var_kwarg (this is how orientations and positions reach the alignment models)
+        tags = np.array([r["uid"] * 3 + 1 for r in rows], np.int64)
+        vecs = np.array([r["pos"] for r in rows], float)
+        tasks = loader.construct_mapping_tasks(_tag_and_mean, output_shape=w.shape,
+                                               var_kwarg=dict(tag=tags, vec=vecs), offset=0.25)
+        res = np.array(tasks.compute() if hasattr(tasks, "compute") else [t.compute() for t in tasks], float)
+        ok = res.shape == (n, 5) and np.array_equal(res[:, 0], tags) and np.allclose(res[:, 1:4], vecs) and \
+            np.allclose(res[:, 4], np.array([r["code"] for r in rows]) + 0.25, atol=TOLERANCES["code"])
+        case.check(ok, f"{what}: mapping task r did not receive row r of the per-molecule keyword arguments together "
+                   "with sub-volume r", None, got=res[:6].tolist() if res.ndim == 2 else str(res.shape))
+        # a binned loader that is built and thrown away leaves this loader as it was
+        snap = snapshot(loader)
+        _ = loader.binning(2, compute=False)
+        unchanged(case, loader, snap, f"{what}.binning(2) discarded")
     return rows
+
+
+def _tag_and_mean(img, tag, vec, offset):
+    return [float(tag), float(vec[0]), float(vec[1]), float(vec[2]), float(np.mean(img)) + offset]
 
 
 def verify_particles(case, w, loader, rows, what, rng):
